@@ -56,10 +56,13 @@ class Check(PropertyCheck):
         total = gen.num_ops(jobs)
         before = after = 0
         for ep in range(rng.randint(2, 3)):
-            for _ in range(total if rng.random() < 0.4 else rng.randint(1, total)):
+            # (an episode may be empty: resets back to back, also right after the constructor's first reset)
+            for _ in range(total if rng.random() < 0.4 else 0 if rng.random() < 0.25 else rng.randint(1, total)):
                 lines.append(f"eauto {rng.randint(0, 50)}")
                 before, after = (before + 1, after) if ep == 0 else (before, after + 1)
             lines.append(rng.choice(["ereset", "edreset", "edreset"]))
+            while rng.random() < 0.3:
+                lines.append(rng.choice(["ereset", "ereset", "edreset"]))
         lines.append(f"eauto {rng.randint(0, 50)}")
         return Scenario(lines, {"kind": "env", "family": family, "filter": "none" if f is None else "+".join(f) or "empty-composite",
                                 "flexible": gen.is_flexible(jobs), "zero_dur": gen.has_zero(jobs), "before": before, "after": after,
